@@ -351,3 +351,21 @@ pub fn stress(run: &Run, section: &str, payloads: &[&str], f: &(dyn Fn(&str, &mu
         }
     });
 }
+
+/// Back-to-back calls on pairs of distinct equal-length strings that collide under common 32-bit hashes (a, b, a again)
+pub fn collisions(run: &Run, section: &str, f: &(dyn Fn(&str, &mut Local) -> bool + Sync)) {
+    let pairs = gens::fingerprint_collisions();
+    run.par(section, true, |tid, _n, l| {
+        if tid != 0 {
+            return; // one thread: the point is the call order on a single thread
+        }
+        for (_, a, b) in pairs.iter() {
+            for s in [a, b, a] {
+                l.cases += 1;
+                if !f(s, l) {
+                    return;
+                }
+            }
+        }
+    });
+}
